@@ -241,6 +241,8 @@ func runC05(c *Ctx, r *Report) {
 	findHeadsShape(c, r, "R-C05.6")
 	r.Doc("R-C05.7", "a merge never swaps an entry object the log holds for the other log's object of the same hash: the views keep returning the byte-identical entry that was validated")
 	mergedHeadObjects(c, r, "R-C05.7")
+	r.Doc("R-C05.8", "every insertion into an entry map is keyed by the inserted entry's own hash, by the key it was looked up with, or (predecessor index) by one of its own links")
+	indexKeys(c, r, "R-C05.8")
 	appendSingleSection(c, r, "R-C05.4", "a merge or append landing in the window has its heads overwritten: entries stay in the index but disappear from Values(), so successive views are not subsequences")
 	fe := &freshEngine{p: p, cg: c.CG, mutators: map[string]bool{}, freshRet: map[*Fn]int{}}
 	for _, it := range []string{"IPFSLogEntry", "IPFSLogLamportClock"} {
@@ -669,4 +671,125 @@ func deadGuard(p *Prog, fn *Fn, pos token.Pos, assigned map[*types.Var]bool) (bo
 		return true
 	})
 	return found != "", found
+}
+
+// indexKeys: every insertion into an entry map is keyed consistently with the inserted entry — by the entry's own
+// hash, by the key under which the entry was just looked up in another map, or (predecessor index) by a link of
+// that very entry. Using the hash, key or link of a different variable files the entry where no lookup finds it.
+func indexKeys(c *Ctx, r *Report, rule string) {
+	p := c.P
+	n := 0
+	for _, fn := range p.Fns {
+		if fn.Orig != nil || !p.firstParty(fn.Pkg.Types) || strings.HasSuffix(fn.Pkg.PkgPath, "/test") || strings.Contains(fn.Pkg.PkgPath, "/example") {
+			continue
+		}
+		walkNoLit(fn.Body, func(nd ast.Node) bool {
+			call, ok := nd.(*ast.CallExpr)
+			if !ok || len(call.Args) != 2 {
+				return true
+			}
+			se, ok := ast.Unparen(call.Fun).(*ast.SelectorExpr)
+			if !ok || se.Sel.Name != "Set" {
+				return true
+			}
+			mt := p.TypeOf(fn, se.X)
+			if mt == nil {
+				return true
+			}
+			if nt := namedOf(mt); nt == nil || (nt.Obj().Name() != "IPFSLogOrderedEntries" && nt.Obj().Name() != "OrderedMap") {
+				return true
+			}
+			vid, ok := ast.Unparen(call.Args[1]).(*ast.Ident)
+			if !ok {
+				return true
+			}
+			vobj := p.ObjOf(fn, vid)
+			n++
+			okKey, how := false, ""
+			// (a) own hash
+			ast.Inspect(call.Args[0], func(m ast.Node) bool {
+				if c2, ok := m.(*ast.CallExpr); ok {
+					if s2, ok := ast.Unparen(c2.Fun).(*ast.SelectorExpr); ok && s2.Sel.Name == "GetHash" {
+						if id, ok := ast.Unparen(s2.X).(*ast.Ident); ok && p.ObjOf(fn, id) == vobj {
+							okKey, how = true, "the entry's own hash"
+						}
+					}
+				}
+				return true
+			})
+			// idents of the key expression
+			var kids []types.Object
+			ast.Inspect(call.Args[0], func(m ast.Node) bool {
+				if id, ok := m.(*ast.Ident); ok {
+					if o, isVar := p.ObjOf(fn, id).(*types.Var); isVar {
+						kids = append(kids, o)
+					}
+				}
+				return true
+			})
+			if !okKey {
+				// (b) the key the value was looked up with; (c) a link of the value
+				walkNoLit(fn.Body, func(m ast.Node) bool {
+					switch x := m.(type) {
+					case *ast.AssignStmt:
+						if len(x.Rhs) == 1 && len(x.Lhs) >= 1 {
+							if lid, ok := ast.Unparen(x.Lhs[0]).(*ast.Ident); ok && p.ObjOf(fn, lid) == vobj {
+								if gc, ok := ast.Unparen(x.Rhs[0]).(*ast.CallExpr); ok && len(gc.Args) == 1 {
+									if gs, ok := ast.Unparen(gc.Fun).(*ast.SelectorExpr); ok && (gs.Sel.Name == "Get" || gs.Sel.Name == "UnsafeGet") {
+										if kid, ok := ast.Unparen(gc.Args[0]).(*ast.Ident); ok {
+											for _, k := range kids {
+												if p.ObjOf(fn, kid) == k {
+													okKey, how = true, "the key the entry was looked up with"
+												}
+											}
+										}
+									}
+								}
+							}
+						}
+					case *ast.RangeStmt:
+						vv, ok := x.Value.(*ast.Ident)
+						if !ok || !insideNode(p, fn, call, x) {
+							return true
+						}
+						isKey := false
+						for _, k := range kids {
+							if p.ObjOf(fn, vv) == k {
+								isKey = true
+							}
+						}
+						if !isKey {
+							return true
+						}
+						switch rx := ast.Unparen(x.X).(type) {
+						case *ast.CallExpr:
+							if rs, ok := ast.Unparen(rx.Fun).(*ast.SelectorExpr); ok && rs.Sel.Name == "GetNext" {
+								if id, ok := ast.Unparen(rs.X).(*ast.Ident); ok && p.ObjOf(fn, id) == vobj {
+									okKey, how = true, "a predecessor link of the entry"
+								}
+							}
+						case *ast.Ident:
+							// the list that became the entry's Next at its creation
+							lobj := p.ObjOf(fn, rx)
+							walkNoLit(fn.Body, func(q ast.Node) bool {
+								if kv, ok := q.(*ast.KeyValueExpr); ok {
+									if kk, ok := kv.Key.(*ast.Ident); ok && kk.Name == "Next" {
+										if id, ok := ast.Unparen(kv.Value).(*ast.Ident); ok && p.ObjOf(fn, id) == lobj {
+											okKey, how = true, "a predecessor link handed to the entry at its creation"
+										}
+									}
+								}
+								return true
+							})
+						}
+					}
+					return true
+				})
+			}
+			r.Check(okKey, rule, r.Key(rule, fn, "keyed-insert", types.ExprString(se.X)), call.Pos(), "the entry is filed under "+how,
+				"the entry "+vid.Name+" is filed in "+types.ExprString(se.X)+" under a key ("+types.ExprString(call.Args[0])+") that is neither its own hash, nor the key it was looked up with, nor one of its predecessor links: lookups by hash miss it (or find another entry)")
+			return true
+		})
+	}
+	r.Floor(rule, "insertions into entry maps", n, 6)
 }
